@@ -1,7 +1,7 @@
 /* C20 (Engine B): the forwarded-query table.
  *
- * The tree's fw_query.c is compiled into this driver by #include, so the real text runs and its static
- * ring can be saved/restored for a depth-first enumeration of put/get histories.
+ * The tree's fw_query.c is compiled into this driver by #include, so the real text runs; only its three
+ * public functions are used (every history is replayed from fw_query_init()).
  *
  * Reference (written from the property text, not from fw_query.c): keep the last 16 forwarded queries
  * (requester, id).  get(id) must yield
@@ -109,24 +109,44 @@ static void apply(int op)
 	hist[histn] = 0;
 }
 
-static void dfs(int depth, int top)
+/* Enumeration without touching fw_query.c's internals (they may be refactored): every history is replayed
+ * from fw_query_init().  ops[] holds the current history; prefix_puts fresh puts come first. */
+static int ops[64];
+
+static void replay(int nops, int prefix_puts)
 {
-	struct fw_query save[FW_QUERY_CACHE_SIZE];
-	int save_ix, op, save_nref = nref, save_histn = histn;
-	if (depth == 0) { n_hist++; return; }
-	memcpy(save, fwq, sizeof(save));
-	save_ix = fwq_ix;
-	for (op = 0; op < NOPS; op++) {
-		if (top >= 0 && (op % nshards) != shard) continue;	/* shard on the first operation */
-		apply(op);
-		dfs(depth - 1, -1);
-		memcpy(fwq, save, sizeof(save));
-		fwq_ix = save_ix;
-		nref = save_nref;
-		histn = save_histn;
-		hist[histn] = 0;
+	int i;
+	fw_query_init();
+	nref = 0;
+	histn = prefix_puts ? snprintf(hist, sizeof(hist), "[%d fresh]", prefix_puts) : 0;
+	hist[histn] = 0;
+	for (i = 0; i < prefix_puts; i++) do_put(2 + i % 5, (unsigned short)(100 + i));
+	for (i = 0; i < nops; i++) {
+		if (i < nops - 1 && ops[i] >= 6) {
+			/* a get in the middle of a history was already judged when it was the last operation */
+			struct fw_query *r = NULL;
+			fw_query_get((unsigned short)(ops[i] - 6), &r);
+			hist[histn++] = "0123"[ops[i] - 6];
+			hist[histn] = 0;
+		} else {
+			apply(ops[i]);
+		}
 	}
-	n_hist++;
+}
+
+static void enumerate(int depth, int maxdepth, int prefix_puts, int sharded)
+{
+	int op;
+	if (depth > 0) {
+		if (ops[depth - 1] >= 6) replay(depth, prefix_puts);	/* judge histories that end in a lookup */
+		n_hist++;
+	}
+	if (depth == maxdepth) return;
+	for (op = 0; op < NOPS; op++) {
+		if (sharded && depth == 0 && (op % nshards) != shard) continue;
+		ops[depth] = op;
+		enumerate(depth + 1, maxdepth, prefix_puts, 0);
+	}
 }
 
 int main(int argc, char **argv)
@@ -139,17 +159,13 @@ int main(int argc, char **argv)
 	nrandom = strtoull(argv[6], NULL, 10);
 
 	/* part 1 */
-	fw_query_init(); nref = 0; histn = 0; hist[0] = 0;
-	dfs(depth, 0);
+	enumerate(0, depth, 0, 1);
 	DRV_N("exhaustive-depth-%d", depth);
 
 	/* part 2: every ring phase */
 	for (k = 0; k < 48; k++) {
 		if (k % nshards != shard) continue;
-		fw_query_init(); nref = 0;
-		histn = snprintf(hist, sizeof(hist), "[%d fresh]", k);
-		for (i = 0; i < k; i++) do_put(2 + i % 5, (unsigned short)(100 + i));
-		dfs(pdepth, -1);
+		enumerate(0, pdepth, k, 0);
 		DRV_N("phase-%d", k);
 	}
 
